@@ -6,7 +6,7 @@
 # 3. demo fails with / passes without the patch  4. quick checks with VERIF_REPO
 set -u
 ROOT="$(cd "$(dirname "$0")/.." && pwd)"
-DIR="$1"; shift
+DIR="$(cd "$1" && pwd)"; shift
 PROPS="$*"
 export GOFLAGS=-mod=mod GOPROXY=off GOSUMDB=off GOTOOLCHAIN=local
 WT=/tmp/verif-seedtest/repo
